@@ -61,6 +61,7 @@ FAMILY = {
     'native-greedy-state': 'native',
     'fn-stateless': 'function',
     'fn-stateful': 'function',
+    'fn-sparse-state': 'function',
     'mapped-names': 'class-wrapped',
     'mapped-callables': 'class-wrapped',
     'mapped-stateless': 'class-wrapped',
@@ -161,6 +162,8 @@ def real_apply(builder, op, seed, kw, ref_before, keep_seed=False):
 
 
 def expected_output(name, seed, params, history, x):
+    if name == 'fn-sparse-state':  # steps without labels leave the state as it was (possibly the empty, falsy history)
+        history = [h for h in history if h[2]]
     return (name, seed if flavours.FLAVOURS[name]['seeded'] else 0, (params['a'], params['b']), tuple(history), tuplify(x))
 
 
